@@ -310,3 +310,25 @@ Definition show_Qr (q : Q) : string := show_Q (Qred q).
    first (InvalidParameterException), then the event. *)
 Definition P_law (fo : flops) (l : law) (mk : rvar -> written) : res Q :=
   do r <- make_rv l; P_written (mk (rv_of fo r)).
+
+(* ------------------------------------------------------------------------- *)
+(* Specification vocabulary used by the theorems. *)
+(* (pmf, cdf) is a discrete law supported on L, L+1, ...: masses are non-negative,
+   vanish below L, and the cdf at every integer t (inside or outside the support) is
+   the sum of the masses on L..t. *)
+Definition discrete_law (pmf cdf : Z -> Q) (L : Z) : Prop :=
+  (forall k, 0 <= pmf k) /\ (forall k, (k < L)%Z -> pmf k == 0) /\
+  (forall t, cdf t == sumZ pmf L t).
+
+(* the parameter sets the constructors are meant to accept *)
+Definition valid_params (l : law) : Prop :=
+  match l with
+  | Binomial n p => (0 < n)%Z /\ 0 <= p /\ p <= 1
+  | Poisson mu => 0 < mu
+  | Geometric p => 0 <= p /\ p <= 1
+  | Bernoulli p => 0 <= p /\ p <= 1
+  | UniformInt lo hi => (lo <= hi)%Z
+  | Exponential lam => 0 < lam
+  | Uniform lo hi => lo <= hi
+  | Gaussian _ sd => 0 < sd
+  end.
